@@ -46,6 +46,11 @@ class Num:
     def __rsub__(s, o): return Num(s._z(o) - s.e)
     def __mul__(s, o): return Num(s.e * s._z(o))
     def __rmul__(s, o): return Num(s._z(o) * s.e)
+    def __truediv__(s, o):
+        if isinstance(o, Num) or o == 0:
+            raise O.Unsupported("division of a symbolic number by a symbolic number or zero")
+        return Num(s.e / s._z(o))
+
     def __neg__(s): return Num(-s.e)
     def __pos__(s): return s
     def __abs__(s): return Num(z3.If(s.e >= 0, s.e, -s.e))
